@@ -657,7 +657,8 @@ bool GlobalGraph::nodesAreMetOnlyOnce_(const GlobalGraph::Node& node, set<Global
   vector<Graph::NodeId> neighbors = getOutgoingNeighbors(node);
   for (auto currNeighbor:neighbors)
   {
-    if (currNeighbor == originNode)
+    // an undirected relation also lists the node we come from; a directed link back to it is a second link
+    if (!directed_ && currNeighbor == originNode)
       continue;
     if (!nodesAreMetOnlyOnce_(currNeighbor, metNodes, node))
       return false;
